@@ -30,8 +30,8 @@ def plan(tier):
     for w in ORTHO:
         for dim in (1, 2):
             for J in (1, 2, 3, 4):
-                units.append({'n': 8, 'wave': w, 'dim': dim, 'J': J})
-    units += [{'n': 500} for _ in range(16)]
+                units.append({'n': 30, 'wave': w, 'dim': dim, 'J': J})
+    units += [{'n': 2500} for _ in range(16)]
     return units
 
 
